@@ -1332,6 +1332,22 @@ def judge_round(J, tgt, f, kg, rng, spec, asg, fixed):
                           'tol=%r deep=%r: call %s: the function received %s, not the caller\'s %s'
                           % (tol, deep, srepr(c), srepr(got)[:200], srepr(o)))
                     break
+    # (a') a one-shot iterator handed to the function must arrive unconsumed
+    if tol is not None and c1[0] and rng.random() < 0.4:
+        items = [1.26, 'a', 2.51]
+        it = iter(items) if rng.random() < 0.5 else (x for x in items)
+        ci = ([it] + list(c1[0][1:]), dict(c1[1]))
+        if _call_ok(tgt, *ci) is not None:
+            try:
+                tgt.call_through(f, *ci)
+                J.note('c12_iterator_argument_checks')
+                left = list(it)
+                if left != items:
+                    J.bad('C12', 'function-received-altered-argument',
+                          'tol=%r deep=%r: an iterator over %r passed as the first argument of %s was consumed before the '
+                          'function could read it (%r left)' % (tol, deep, items, srepr(ci)[:120], left))
+            except Exception:
+                pass
     # (b) keys merge exactly when the oracle-rounded bindings are equal
     if not info_preserving(case):
         return
